@@ -10,6 +10,11 @@ import (
 	"verifharness/mc"
 )
 
+func init() {
+	// every tagged verifPoint inside fox (NewRoute, lookupByPath) is a scheduling point
+	fox.VerifHook = vs.HookPoint
+}
+
 // Program is a closed concurrent program: an initial registered set and one script per thread.
 type Program struct {
 	Name    string
@@ -73,7 +78,7 @@ func LinScenario(p *Program) *mc.Scenario {
 					}
 					for ti := range p.Threads {
 						if pv, stk := x.S.PanicOf(ti); pv != nil {
-							return "panic", "panic", fmt.Sprintf("thread %d panicked: %v\n%s\n  program: %s", ti, pv, firstLines(stk, 14), p.Describe())
+							return "panic", "panic", fmt.Sprintf("thread %d panicked: %v\n%s\n  program: %s", ti, pv, mc.NormStack(stk, 10), p.Describe())
 						}
 					}
 					// final reads by the main thread
